@@ -5,6 +5,7 @@ package main
 // Shared by C01, C02, C07, C15.
 
 import (
+	"go/token"
 	"fmt"
 	"go/types"
 	"strings"
@@ -340,82 +341,165 @@ func (m *cacheModel) checkDoSync() {
 		return
 	}
 	pos := c.P.fnPos(fn)
-	loops := findLoops(fn)
-	// identify the two loops: the one ranging over the list parameter and the
-	// one ranging over c.items
-	var itemLoop, sweepLoop *Loop
-	for _, l := range loops {
-		kind := ""
-		for b := range l.Body {
-			for _, in := range b.Instrs {
-				if r, ok := in.(*ssa.Next); ok {
-					if rg, ok := r.Iter.(*ssa.Range); ok {
-						if _, ok := rg.X.Type().Underlying().(*types.Map); ok {
-							kind = "map"
-						}
-					}
-				}
-			}
-		}
-		if kind == "map" {
-			if sweepLoop != nil {
-				c.undecided("T-TABLE(doSync.sweep)", "doSync/two-map-loops", pos, "more than one loop over a map")
-			}
-			sweepLoop = l
-		} else {
-			if itemLoop != nil {
-				c.undecided("T-TABLE(doSync.item)", "doSync/two-list-loops", pos, "more than one list loop")
-			}
-			itemLoop = l
-		}
+	// the two loops — one over the listed objects, one over c.items — may each live in doSync
+	// itself or in a private helper doSync calls once, outside any loop
+	type part struct {
+		host *ssa.Function
+		loop *Loop
+		call *ssa.Call // nil when the loop is in doSync itself
 	}
-	sweepFn := fn
-	if itemLoop != nil && sweepLoop == nil {
-		// the sweep may live in a private helper called after the list loop: doSync returns helper(set, events)
-		for _, b := range fn.Blocks {
-			for _, in := range b.Instrs {
-				call, ok := in.(*ssa.Call)
-				if !ok || itemLoop.Body[b] {
-					continue
-				}
-				g := call.Call.StaticCallee()
-				if g == nil || g.Pkg != fn.Pkg || g.Blocks == nil || !c.P.ownedBy(g, "", "_cache.run") {
-					continue
-				}
-				for _, l := range findLoops(g) {
-					for bb := range l.Body {
-						for _, ii := range bb.Instrs {
-							if r, ok := ii.(*ssa.Next); ok {
-								if rg, ok := r.Iter.(*ssa.Range); ok {
-									if _, ok := rg.X.Type().Underlying().(*types.Map); ok && len(findLoops(g)) == 1 {
-										sweepLoop, sweepFn = l, g
-									}
-								}
+	var item, sweep *part
+	classify := func(host *ssa.Function, call *ssa.Call) {
+		for _, l := range findLoops(host) {
+			kind := ""
+			for b := range l.Body {
+				for _, in := range b.Instrs {
+					if r, ok := in.(*ssa.Next); ok {
+						if rg, ok := r.Iter.(*ssa.Range); ok {
+							if _, ok := rg.X.Type().Underlying().(*types.Map); ok {
+								kind = "map"
 							}
 						}
 					}
 				}
 			}
+			pt := &part{host, l, call}
+			if kind == "map" {
+				if sweep != nil {
+					c.undecided("T-TABLE(doSync.sweep)", "doSync/two-map-loops", pos, "more than one loop over a map")
+				}
+				sweep = pt
+			} else {
+				if item != nil {
+					c.undecided("T-TABLE(doSync.item)", "doSync/two-list-loops", pos, "more than one list loop")
+				}
+				item = pt
+			}
 		}
 	}
-	if itemLoop == nil || sweepLoop == nil {
+	classify(fn, nil)
+	ncalls := map[*ssa.Function]int{}
+	var hcalls []*ssa.Call
+	for _, b := range fn.Blocks {
+		for _, in := range b.Instrs {
+			if call, ok := in.(*ssa.Call); ok {
+				if g := call.Call.StaticCallee(); g != nil && g != fn && g.Pkg == fn.Pkg && g.Blocks != nil && c.P.ownerClosure(fn)[g] && len(findLoops(g)) > 0 {
+					ncalls[g]++
+					hcalls = append(hcalls, call)
+				}
+			}
+		}
+	}
+	for _, call := range hcalls {
+		if g := call.Call.StaticCallee(); ncalls[g] == 1 && !inLoop(fn, call.Block()) {
+			classify(g, call)
+		}
+	}
+	if item == nil || sweep == nil {
 		c.undecided("T-TABLE(doSync.item)", "doSync/shape", pos, "doSync is not `for list {…}; for items {…}`")
 		return
 	}
-	if sweepFn != fn {
-		c.useFn(sweepFn)
-		m.checkSyncItem(fn, itemLoop)
-		m.checkSyncSweep(sweepFn, sweepLoop)
-		m.checkSyncReturn(fn)
-		m.checkSyncReturn(sweepFn)
-		return
+	// order: the sweep starts only after the list loop has finished
+	after := func(x, y *ssa.BasicBlock, xi, yi int) bool { // y strictly after x on every path
+		if x == y {
+			return yi > xi
+		}
+		return x.Dominates(y)
 	}
-	if itemLoop.Header.Index > sweepLoop.Header.Index || itemLoop.Body[sweepLoop.Header] || sweepLoop.Body[itemLoop.Header] {
+	idxOf := func(call *ssa.Call) int {
+		for i, in := range call.Block().Instrs {
+			if in == ssa.Instruction(call) {
+				return i
+			}
+		}
+		return -1
+	}
+	ordered := false
+	switch {
+	case item.call == nil && sweep.call == nil:
+		ordered = !(item.loop.Header.Index > sweep.loop.Header.Index || item.loop.Body[sweep.loop.Header] || sweep.loop.Body[item.loop.Header])
+	case item.call == nil:
+		ordered = !item.loop.Body[sweep.call.Block()] && item.loop.Header.Dominates(sweep.call.Block())
+	case sweep.call == nil:
+		ordered = !sweep.loop.Body[item.call.Block()] && item.call.Block().Dominates(sweep.loop.Header)
+	default:
+		ordered = after(item.call.Block(), sweep.call.Block(), idxOf(item.call), idxOf(sweep.call))
+	}
+	if !ordered {
 		c.undecided("T-TABLE(doSync.item)", "doSync/loop-order", pos, "the sweep must follow the list loop and not nest with it")
 		return
 	}
-	m.checkSyncItem(fn, itemLoop)
-	m.checkSyncSweep(fn, sweepLoop)
+	// the sweep's working set is the list loop's: same local map, handed over unchanged
+	setOK, setWhy := true, ""
+	onlyMakeMap := func(f *ssa.Function) *ssa.MakeMap {
+		var mm *ssa.MakeMap
+		n := 0
+		for _, b := range f.Blocks {
+			for _, in := range b.Instrs {
+				if x, ok := in.(*ssa.MakeMap); ok {
+					mm = x
+					n++
+				}
+			}
+		}
+		if n == 1 {
+			return mm
+		}
+		return nil
+	}
+	// value of the item part's working set as seen in doSync
+	var setInFn ssa.Value
+	if item.call == nil {
+		if mm := onlyMakeMap(fn); mm != nil {
+			setInFn = mm
+		}
+	} else {
+		mm := onlyMakeMap(item.host)
+		for _, b := range item.host.Blocks {
+			if r, ok := b.Instrs[len(b.Instrs)-1].(*ssa.Return); ok && mm != nil {
+				for k, res := range r.Results {
+					if res == ssa.Value(mm) {
+						for _, ref := range *item.call.Referrers() {
+							if ex, ok := ref.(*ssa.Extract); ok && ex.Index == k {
+								setInFn = ex
+							}
+						}
+						if len(r.Results) == 1 {
+							setInFn = item.call
+						}
+					}
+				}
+			}
+		}
+	}
+	if setInFn == nil {
+		setOK, setWhy = false, "cannot identify the working set built by the list loop"
+	} else if sweep.call != nil {
+		found := false
+		for i, p := range sweep.host.Params {
+			if _, ok := p.Type().Underlying().(*types.Map); ok && i < len(sweep.call.Call.Args) {
+				a := sweep.call.Call.Args[i]
+				if ld, ok := a.(*ssa.UnOp); ok && ld.Op == token.MUL {
+					a = storedValue(ld.X)
+				}
+				if a == setInFn {
+					found = true
+				} else {
+					setOK, setWhy = false, "the sweep helper is not given the working set built by the list loop"
+				}
+			}
+		}
+		if !found && setOK {
+			setOK, setWhy = false, "the sweep helper takes no working set"
+		}
+	}
+	if item.call != nil || sweep.call != nil {
+		c.check(setOK, "T-TABLE(doSync.sweep)", "doSync/sweep-uses-the-list-loop's-working-set", pos, "", "doSync: "+setWhy)
+		c.useFn(item.host)
+		c.useFn(sweep.host)
+	}
+	m.checkSyncItem(item.host, item.loop)
+	m.checkSyncSweep(sweep.host, sweep.loop)
 	m.checkSyncReturn(fn)
 }
 
@@ -426,6 +510,15 @@ func isLocalMap(t *Term) bool {
 	}
 	if t.K == "makemap" {
 		return true
+	}
+	// the working set returned by the private helper that ran the list loop (checked by
+	// doSync/sweep-uses-the-list-loop's-working-set)
+	if t.K == "extract" && len(t.A) == 1 && t.A[0].K == "call" {
+		if t.V != nil {
+			if _, isMap := t.V.Type().Underlying().(*types.Map); isMap {
+				return true
+			}
+		}
 	}
 	// the working set handed to a private helper
 	if p, ok := t.V.(*ssa.Parameter); ok && t.K == "param" {
@@ -707,33 +800,48 @@ func (m *cacheModel) checkSyncReturn(fn *ssa.Function) {
 	c := m.c
 	rule := "T-FLOW(doSync.return)"
 	pos := c.P.fnPos(fn)
-	appends := map[ssa.Value]bool{}
-	for _, b := range fn.Blocks {
-		for _, in := range b.Instrs {
-			if call, ok := in.(*ssa.Call); ok {
-				if bi, ok := call.Call.Value.(*ssa.Builtin); ok && bi.Name() == "append" {
-					appends[call] = true
-				}
-			}
-			if st, ok := in.(*ssa.Store); ok {
-				if fa, ok := st.Addr.(*ssa.FieldAddr); ok {
-					name := structFieldName(fa.X.Type(), fa.Field)
-					if name == "items" || name == "filter" {
-						c.fail("T-TABLE(doSync.item)", "doSync/store-to-"+name, c.P.instrPos(in), "doSync assigns the cache field `"+name+"` itself; the reference only updates/deletes individual keys (a wholesale replacement bypasses the version/filter table)")
-					}
-				}
-			}
-		}
+	owned := func(g *ssa.Function) bool {
+		return g != nil && g.Pkg == fn.Pkg && g.Blocks != nil && g != fn && c.P.ownerClosure(fn)[g]
 	}
-	var rets []*ssa.Return
-	for _, b := range fn.Blocks {
-		if r, ok := b.Instrs[len(b.Instrs)-1].(*ssa.Return); ok {
-			rets = append(rets, r)
-		}
-	}
-	ok := len(rets) >= 1
+	involved := map[*ssa.Function]bool{fn: true}
 	reach := map[ssa.Value]bool{}
+	isAppend := func(v ssa.Value) bool {
+		call, ok := v.(*ssa.Call)
+		if !ok {
+			return false
+		}
+		bi, ok := call.Call.Value.(*ssa.Builtin)
+		return ok && bi.Name() == "append"
+	}
+	isSlice := func(t types.Type) bool { _, ok := t.Underlying().(*types.Slice); return ok }
 	var visit func(v ssa.Value) bool
+	// result k of helper g is the closure of g's appends over the event list it was given
+	helperResult := func(call *ssa.Call, k int) bool {
+		g := call.Call.StaticCallee()
+		if !owned(g) {
+			return false
+		}
+		involved[g] = true
+		var rt types.Type = call.Type()
+		if tup, ok := rt.(*types.Tuple); ok && k < tup.Len() {
+			rt = tup.At(k).Type()
+		}
+		for _, a := range call.Call.Args {
+			if isSlice(a.Type()) && types.Identical(a.Type(), rt) && !visit(a) {
+				return false
+			}
+		}
+		n := 0
+		for _, b := range g.Blocks {
+			if r, ok := b.Instrs[len(b.Instrs)-1].(*ssa.Return); ok {
+				n++
+				if k >= len(r.Results) || !visit(r.Results[k]) {
+					return false
+				}
+			}
+		}
+		return n > 0
+	}
 	visit = func(v ssa.Value) bool {
 		if reach[v] {
 			return true
@@ -748,8 +856,13 @@ func (m *cacheModel) checkSyncReturn(fn *ssa.Function) {
 			}
 			return true
 		case *ssa.Call:
-			if appends[x] {
+			if isAppend(x) {
 				return visit(x.Call.Args[0])
+			}
+			return helperResult(x, 0)
+		case *ssa.Extract:
+			if call, ok := x.Tuple.(*ssa.Call); ok {
+				return helperResult(call, x.Index)
 			}
 			return false
 		case *ssa.Const:
@@ -757,49 +870,64 @@ func (m *cacheModel) checkSyncReturn(fn *ssa.Function) {
 		case *ssa.MakeSlice, *ssa.Slice:
 			return true
 		case *ssa.Parameter:
-			// the event list handed to a private helper (its caller is checked the same way)
-			_, isSlice := x.Type().Underlying().(*types.Slice)
-			return isSlice && fn.Name() != "doSync"
+			// the event list handed to a private helper (the argument is visited at the call)
+			return isSlice(x.Type()) && x.Parent() != fn
 		}
 		return false
 	}
-	// doSync may return the result of a private helper that continues the same event list
-	for _, r := range rets {
-		if len(r.Results) == 1 {
-			if call, ok := r.Results[0].(*ssa.Call); ok && !appends[call] {
-				if g := call.Call.StaticCallee(); g != nil && g.Pkg == fn.Pkg && c.P.ownedBy(g, "", "_cache.run") {
-					okArg := false
-					for _, a := range call.Call.Args {
-						if _, isSlice := a.Type().Underlying().(*types.Slice); isSlice && visit(a) {
-							okArg = true
+	ok := true
+	nret := 0
+	for _, b := range fn.Blocks {
+		if r, isRet := b.Instrs[len(b.Instrs)-1].(*ssa.Return); isRet {
+			nret++
+			if len(r.Results) != 1 || !visit(r.Results[0]) {
+				ok = false
+			}
+		}
+	}
+	if nret == 0 {
+		ok = false
+	}
+	// every private helper doSync calls that builds events takes part: its appends must reach the result too
+	for _, b := range fn.Blocks {
+		for _, in := range b.Instrs {
+			if call, isCall := in.(*ssa.Call); isCall {
+				if g := call.Call.StaticCallee(); owned(g) && !involved[g] {
+					for _, gb := range g.Blocks {
+						for _, gi := range gb.Instrs {
+							if ac, ok := gi.(*ssa.Call); ok && isAppend(ac) && types.Identical(ac.Type(), fn.Signature.Results().At(0).Type()) {
+								involved[g] = true
+							}
 						}
-					}
-					if okArg {
-						reach[call] = true
-						appends[call] = false
-						// treat as visited
-						defer func() {}()
-						continue
 					}
 				}
 			}
 		}
 	}
-	for _, r := range rets {
-		if len(r.Results) == 1 && reach[r.Results[0]] {
-			continue
-		}
-		if len(r.Results) != 1 || !visit(r.Results[0]) {
-			ok = false
+	nappend := 0
+	for g := range involved {
+		c.useFn(g)
+		for _, b := range g.Blocks {
+			for _, in := range b.Instrs {
+				if call, isCall := in.(*ssa.Call); isCall && isAppend(call) {
+					nappend++
+					if !reach[call] {
+						ok = false
+					}
+				}
+				if st, isStore := in.(*ssa.Store); isStore {
+					if fa, isFA := st.Addr.(*ssa.FieldAddr); isFA {
+						name := structFieldName(fa.X.Type(), fa.Field)
+						if name == "items" || name == "filter" {
+							c.fail("T-TABLE(doSync.item)", "doSync/store-to-"+name, c.P.instrPos(in), "doSync assigns the cache field `"+name+"` itself; the reference only updates/deletes individual keys (a wholesale replacement bypasses the version/filter table)")
+						}
+					}
+				}
+			}
 		}
 	}
-	for a := range appends {
-		if !reach[a] {
-			ok = false
-		}
-	}
-	c.check(ok, rule, fn.Name()+"/returns-all-built-events", pos,
-		fmt.Sprintf("return value is the closure of the %d appends", len(appends)),
+	c.check(ok, rule, "doSync/returns-all-built-events", pos,
+		fmt.Sprintf("return value is the closure of the %d appends", nappend),
 		"doSync does not return exactly the list of events it built (an append is lost, or something else is returned)")
 }
 
@@ -898,7 +1026,7 @@ func (m *cacheModel) checkRunLoop() {
 	}
 	rule := "T-TABLE(_cache.run)"
 	pos := c.P.fnPos(fn)
-	loops := findLoops(fn)
+	loops := findLoopsDeep(c.P, fn)
 	if len(loops) != 1 {
 		c.undecided(rule, "_cache.run/shape", pos, fmt.Sprintf("expected exactly one loop, found %d", len(loops)))
 		return
@@ -1239,6 +1367,22 @@ func (m *cacheModel) checkKeySites() {
 				if e.Kind == "call" && e.Fn != nil && fnName(e.Fn) == "_cache.Get" && len(e.Args) == 3 {
 					a, b := e.Args[1], e.Args[2]
 					ok = a.K == "invoke" && a.S == "GetNamespace" && b.K == "invoke" && b.S == "GetName" && sameTerm(a.A[0], b.A[0])
+				}
+				// or the request is built directly: the key sent on getch is (obj.GetNamespace(), obj.GetName())
+				if e.Kind == "select" {
+					for _, st := range e.Sel {
+						if st.Send == nil || !st.Chan.IsRecvField("getch") {
+							continue
+						}
+						walkTerm(st.Send, func(x *Term) {
+							if x.K == "struct" && strings.HasSuffix(x.S, "cacheKey") && len(x.A) == 2 {
+								a, b := x.A[0], x.A[1]
+								if a.K == "invoke" && a.S == "GetNamespace" && b.K == "invoke" && b.S == "GetName" && sameTerm(a.A[0], b.A[0]) && a.A[0].K == "param" {
+									ok = true
+								}
+							}
+						})
+					}
 				}
 			}
 		}
